@@ -3,8 +3,11 @@ import json, os
 V = os.path.dirname(os.path.dirname(os.path.abspath(__file__)))
 BASE_CMD = "cd /repo && /venv/bin/python -m pytest -ra -q -p no:cacheprovider --timeout=900 --continue-on-collection-errors"
 TB = ("Trusted: Coq 8.16.1 kernel + vm_compute; the fail-closed Python-ast -> Gallina translator (harness/translate); "
-      "the Python-semantics library Num/PyNum.v, Num/F64.v; hand-written models in coq/Model, coq/Ext (tied to the code by "
-      "differential runs evaluated inside Coq, sampled); pandas / joblib / py_stringmatching / CPython are modelled, not verified; "
+      "the Python-semantics library Num/PyNum.v, Num/F64.v; hand-written models in coq/Model, coq/Ext: proved to be refined by "
+      "the code regenerated from the source on every run (Filters, Joins, Api, Matcher, Projection, Profiler, TokenOrdering; "
+      "Proofs/*Refine*.v, CodeLevel*.v) and additionally compared with the real functions by differential runs evaluated "
+      "inside Coq (sampled); Suffix and Converter models are tied by differential runs only; the frame model Model/Frame.v "
+      "(rows + header, no index, no dtypes) stands for pandas; pandas / joblib / py_stringmatching / CPython are modelled, not verified; "
       "Cython twins not built, not modelled. ")
 AX = "Axioms (Print Assumptions): the stdlib real-number axioms through Flocq (sig_forall_dec, sig_not_dec, functional_extensionality_dep, classic) "
 CLAIMED = {
